@@ -15,6 +15,7 @@ import (
 	"context"
 	"errors"
 	"fmt"
+	"io"
 	"strings"
 	"testing"
 	"time"
@@ -32,7 +33,7 @@ import (
 )
 
 var (
-	vc16Devs   = []agd.DeviceID{"dev0000a", "dev0000b", "dev0000c", "dev0000d"}
+	vc16Devs   = []agd.DeviceID{"dev0000a", "dev0000A", "dev0000b", "dev0000c"}
 	vc16Ctrys  = []geoip.Country{geoip.CountryNone, geoip.CountryAD, geoip.CountryCY, geoip.CountryUS, "DE"}
 	vc16Protos = []agd.Protocol{agd.ProtoDNS, agd.ProtoDoH, agd.ProtoDoQ, agd.ProtoDoT, agd.ProtoDNSCrypt}
 	vc16Base   = time.Date(2024, 1, 2, 3, 4, 5, 0, time.UTC)
@@ -67,6 +68,14 @@ var vc16KindNames = []string{"success", "open-error", "send-error", "close-error
 type vc16Rec struct {
 	Dev  int
 	Meta vc16Meta // N and Time are filled in at execution
+
+	// Near: 0 = as scripted; 1, 2, 3 = only country, ASN, protocol differs
+	// from the device's previous query; 4 = unknown location (country "" and
+	// ASN 0 together, as mainmw passes it).
+	Near int
+
+	// DoneCtx makes the Record call with an already-cancelled context.
+	DoneCtx bool
 }
 
 // Context modes of one Refresh call.
@@ -75,6 +84,7 @@ const (
 	vc16CtxCancelled // already cancelled when Refresh is called
 	vc16CtxExpired   // already past its deadline when Refresh is called
 	vc16CtxCancelMid // cancelled mid-stream (at the position of the mid-stream records)
+	vc16CtxWorker    // live, far deadline and logger value, as the refresh worker passes it
 )
 
 // vc16Attempt is the script of one Refresh.  As with a real gRPC client, a
@@ -95,8 +105,14 @@ type vc16Round struct {
 	Up  *vc16Attempt
 }
 
+// vc16ErrKindEOF makes a failing Send return io.EOF; elsewhere it is a plain
+// Unavailable status.
+const vc16ErrKindEOF = 4
+
 func vc16Err(kind int) error {
 	switch kind {
+	case vc16ErrKindEOF:
+		return status.Error(codes.Unavailable, "vc16: scripted server-side failure")
 	case 0:
 		return status.Error(codes.Unavailable, "vc16: scripted unavailable")
 	case 1:
@@ -138,8 +154,49 @@ func (w *vc16World) record(rc *vc16Rec) {
 	m.N = w.n
 	m.Time = vc16Base.Add(time.Duration(w.n)*time.Second + time.Duration(w.n)*time.Microsecond)
 	d := vc16Devs[rc.Dev]
-	w.log = append(w.log, fmt.Sprintf("Record(%s, %s)", d, m))
-	w.r.Record(w.ctx, d, m.Ctry, m.ASN, m.Time, m.Proto)
+	if prev, ok := w.last[d]; rc.Near == 4 {
+		m.Ctry, m.ASN = geoip.CountryNone, 0
+		if ok && (prev.Ctry != geoip.CountryNone || prev.ASN != 0) {
+			w.classes["unknown-location-after-known"] = true
+		}
+	} else if ok && rc.Near >= 1 && rc.Near <= 3 {
+		ctry, asn, proto := m.Ctry, m.ASN, m.Proto
+		m.Ctry, m.ASN, m.Proto = prev.Ctry, prev.ASN, prev.Proto
+		switch rc.Near {
+		case 1:
+			if ctry == prev.Ctry {
+				ctry += "X"
+			}
+
+			m.Ctry = ctry
+		case 2:
+			if asn == prev.ASN {
+				asn++
+			}
+
+			m.ASN = asn
+		case 3:
+			if proto == prev.Proto {
+				proto++
+			}
+
+			m.Proto = proto
+		}
+
+		w.classes["near-miss-one-field"] = true
+	}
+
+	ctx, txt := w.ctx, ""
+	if rc.DoneCtx {
+		var cancel context.CancelFunc
+		ctx, cancel = context.WithCancel(ctx)
+		cancel()
+		txt = " [ctx already cancelled]"
+		w.classes["record-with-done-context"] = true
+	}
+
+	w.log = append(w.log, fmt.Sprintf("Record(%s, %s)%s", d, m, txt))
+	w.r.Record(ctx, d, m.Ctry, m.ASN, m.Time, m.Proto)
 	w.recorded[d]++
 	w.last[d] = m
 	if w.failedSeen[d] {
@@ -221,7 +278,8 @@ type vc16Stream struct {
 	failAt     int
 	midAt      int
 	midDone    bool
-	closed     bool
+	closed     bool  // CloseAndRecv has been called
+	broken     error // status of a stream that has failed
 	midDevs    map[agd.DeviceID]bool
 }
 
@@ -254,9 +312,9 @@ func (s *vc16Stream) ctxFailed(where string) (err error) {
 	s.w.log = append(s.w.log, fmt.Sprintf("%s -> error (%v)", where, cerr))
 	s.w.classes["stream-cancelled-in-flight"] = true
 	s.markFailed()
-	s.closed = true
+	s.broken = status.FromContextError(cerr).Err()
 
-	return status.FromContextError(cerr).Err()
+	return s.broken
 }
 
 func (s *vc16Stream) markFailed() {
@@ -278,10 +336,21 @@ func (s *vc16Stream) markFailed() {
 	}
 }
 
+// Send implements the stream.  As with a real gRPC client stream, once the
+// stream is broken every further Send returns io.EOF and the status is
+// reported by CloseAndRecv.
 func (s *vc16Stream) Send(m *DeviceBillingStat) (err error) {
 	w := s.w
 	if s.closed {
-		w.fatalf("Send after CloseAndRecv")
+		w.log = append(w.log, "Send after CloseAndRecv -> error")
+
+		return status.Error(codes.Internal, "vc16: SendMsg called after CloseSend")
+	}
+
+	if s.broken != nil {
+		w.log = append(w.log, "Send on a broken stream -> io.EOF")
+
+		return io.EOF
 	}
 
 	if len(s.msgs) == s.midAt {
@@ -293,7 +362,6 @@ func (s *vc16Stream) Send(m *DeviceBillingStat) (err error) {
 	}
 
 	if s.a.Kind == vc16SendErr && len(s.msgs) == s.failAt {
-		w.log = append(w.log, fmt.Sprintf("Send #%d -> error", len(s.msgs)))
 		if s.failAt == 0 {
 			w.classes["send-error-first"] = true
 		} else {
@@ -301,9 +369,19 @@ func (s *vc16Stream) Send(m *DeviceBillingStat) (err error) {
 		}
 
 		s.markFailed()
-		s.closed = true
+		s.broken = vc16Err(s.a.ErrKind)
+		if s.a.ErrKind == vc16ErrKindEOF {
+			// The documented form of a server-side failure: Send reports
+			// io.EOF, the status comes from CloseAndRecv.
+			w.log = append(w.log, fmt.Sprintf("Send #%d -> io.EOF", len(s.msgs)))
+			w.classes["send-error-eof"] = true
 
-		return vc16Err(s.a.ErrKind)
+			return io.EOF
+		}
+
+		w.log = append(w.log, fmt.Sprintf("Send #%d -> error", len(s.msgs)))
+
+		return s.broken
 	}
 
 	w.log = append(w.log, fmt.Sprintf("Send {dev=%s q=%d t=%s %q as%d p%d}", m.DeviceId, m.Queries,
@@ -316,15 +394,22 @@ func (s *vc16Stream) Send(m *DeviceBillingStat) (err error) {
 func (s *vc16Stream) CloseAndRecv() (e *emptypb.Empty, err error) {
 	w := s.w
 	if s.closed {
-		w.fatalf("CloseAndRecv on a finished stream")
+		w.log = append(w.log, "second CloseAndRecv -> error")
+
+		return nil, status.Error(codes.Internal, "vc16: stream already finished")
+	}
+
+	s.closed = true
+	if s.broken != nil {
+		w.log = append(w.log, "CloseAndRecv on a broken stream -> error")
+
+		return nil, s.broken
 	}
 
 	s.mid()
 	if err = s.ctxFailed("CloseAndRecv"); err != nil {
 		return nil, err
 	}
-
-	s.closed = true
 
 	if s.a.Kind == vc16CloseErr || (s.a.Kind == vc16SendErr && len(s.msgs) <= s.failAt) {
 		// A send fault scripted beyond what the client sent is turned into a
@@ -397,6 +482,10 @@ func (w *vc16World) refresh(a *vc16Attempt) {
 		ctx, a.cancel = context.WithCancel(ctx)
 		defer a.cancel()
 		txt = " [ctx to be cancelled mid-stream]"
+	case vc16CtxWorker:
+		var cancel context.CancelFunc
+		ctx, cancel = context.WithTimeout(slogutil.ContextWithLogger(ctx, slogutil.NewDiscardLogger()), 24*time.Hour)
+		defer cancel()
 	}
 
 	if a.Ctx == vc16CtxCancelled || a.Ctx == vc16CtxExpired {
@@ -423,6 +512,8 @@ func vc16DrawRec(t *rapid.T, nDev int) (rc vc16Rec) {
 			ASN:   geoip.ASN(rapid.OneOf(rapid.SampledFrom([]uint32{0, 1, 42, 65535, 4294967295}), rapid.Uint32()).Draw(t, "asn")),
 			Proto: rapid.SampledFrom(vc16Protos).Draw(t, "proto"),
 		},
+		Near:    rapid.SampledFrom([]int{0, 0, 1, 2, 3, 4, 0}).Draw(t, "near"),
+		DoneCtx: rapid.IntRange(0, 5).Draw(t, "recDoneCtx") == 3,
 	}
 }
 
@@ -430,7 +521,8 @@ func TestVerifC16Wire(t *testing.T) {
 	st := vstat.New("C16", "backendpb.wire",
 		"rapid histories through RuntimeRecorder -> real backendpb.BillStat -> scripted gRPC client stream: per round 0..4 records, then a Refresh (context live | already cancelled | already past its deadline | cancelled mid-stream) whose stream succeeds | fails to open | fails in Send at a drawn position | fails in CloseAndRecv, optionally with records arriving mid-stream; ends with a successful flush; non-trivial = a failed stream holding device d, a later Record(d), then a successful stream holding d; distinct by (devices, fault kinds, placement)",
 		"fail-then-record-then-success", "open-error", "send-error-first", "send-error-later", "close-error", "record-mid-stream",
-		"refresh-with-done-context-nonempty", "open-error-done-context", "stream-cancelled-in-flight")
+		"refresh-with-done-context-nonempty", "open-error-done-context", "stream-cancelled-in-flight",
+		"send-error-eof", "near-miss-one-field", "unknown-location-after-known", "record-with-done-context")
 	st.Finish(t)
 
 	rapid.Check(t, func(t *rapid.T) {
@@ -474,10 +566,10 @@ func TestVerifC16Wire(t *testing.T) {
 			a := &vc16Attempt{
 				Kind:    rapid.SampledFrom([]int{vc16OK, vc16OK, vc16OpenErr, vc16SendErr, vc16SendErr, vc16CloseErr}).Draw(t, "fault"),
 				SendAt:  rapid.SampledFrom([]int{0, 0, 340, 500, 670, 999}).Draw(t, "sendAt"),
-				ErrKind: rapid.IntRange(0, 3).Draw(t, "errKind"),
+				ErrKind: rapid.IntRange(0, 4).Draw(t, "errKind"),
 				MidAt:   rapid.SampledFrom([]int{0, 500, 999}).Draw(t, "midAt"),
 				Ctx: []int{vc16CtxCancelled, vc16CtxExpired, vc16CtxCancelMid, vc16CtxCancelMid,
-					vc16CtxLive, vc16CtxLive, vc16CtxLive, vc16CtxLive, vc16CtxLive, vc16CtxLive}[rapid.IntRange(0, 9).Draw(t, "ctxMode")],
+					vc16CtxLive, vc16CtxLive, vc16CtxLive, vc16CtxWorker, vc16CtxWorker, vc16CtxWorker}[rapid.IntRange(0, 9).Draw(t, "ctxMode")],
 			}
 
 			nMid := rapid.SampledFrom([]int{0, 0, 1, 2}).Draw(t, "nMid")
